@@ -274,6 +274,33 @@
              (tuple 'while (tuple not= nil 'x) ;DEAD '(set r :V) '(++ n) '(set x nil))
              '(def after @[r n]) '(if (< (in after 1) 2) (in after 0) :looped-twice))
        args nil-xform)
+  (add "ifnotnil2-dead"
+       (mkfn ps (tuple 'def 'v (tuple f ;ps))
+             (tuple 'def 'r (tuple 'if (tuple not= 'v nil) (tuple 'do ;DEAD :V) :N))
+             '(def after @[r]) '(in after 0))
+       args nil-xform)
+  # the four nil-test forms as `while` condition around a body that CREATES A CLOSURE: janetc_while throws the loop away and recompiles it
+  # as a tail-recursive function (while-iife) whose guard - a jump over `retn`, opposite sense - is emitted at a second site
+  (each [rn cnd stay] [["whilenil-clo" (tuple = nil 'x) :N] ["whilenil2-clo" (tuple = 'x nil) :N]
+                       ["whilenotnil-clo" (tuple not= nil 'x) :V] ["whilenotnil2-clo" (tuple not= 'x nil) :V]]
+    (add rn
+         (mkfn ps (tuple 'var 'x (tuple f ;ps)) (tuple 'var 'r (if (= stay :N) :V :N)) '(var n 0) '(def fns @[])
+               (tuple 'while cnd '(def y n) '(array/push fns (fn [] y)) (tuple 'set 'r stay) '(++ n)
+                      (tuple 'set 'x (if (= stay :N) 'n nil)))
+               '(if (and (< n 2) (= n (length fns)) (= n (length (map (fn [g] (g)) fns)))) r [:looped n (length fns)]))
+         args nil-xform))
+  # the iteration macros of boot.janet expand to `(while (<function not=> nil k) ...)` over the keys of the data structure: a key
+  # `false` (or any non-nil key) must be visited, with and without a closure created per element
+  (def mkds {:table (tuple table 'v :x) :struct (tuple struct 'v :x)})
+  (each [rn ds head clo] [["each-clo" :table '(each e ds) true] ["eachk-clo" :table '(eachk e ds) true]
+                          ["eachp-clo" :struct '(eachp e ds) true] ["loop-in-clo" :struct '(loop [e :in ds]) true]
+                          ["loop-keys-clo" :struct '(loop [e :keys ds]) true] ["loop-pairs-clo" :table '(loop [[e e2] :pairs ds]) true]
+                          ["eachk-noclo" :table '(eachk e ds) false] ["loop-pairs-noclo" :struct '(loop [[e e2] :pairs ds]) false]]
+    (add rn
+         (mkfn ps (tuple 'def 'v (tuple f ;ps)) (tuple 'def 'ds (mkds ds)) '(def fns @[])
+               (tuple ;head (if clo '(array/push fns (fn [] e)) '(array/push fns e)))
+               '(if (= (length fns) (length ds)) v [:iteration-stopped-early (length fns) (length ds)]))
+         args))
   r)
 
 (var ncase 0)
